@@ -23,7 +23,7 @@ RULE = ("(a) systematic: 2..4 threads x 1..3 failing exec calls with unique path
         "threads uses raw futexes only (no happens-before edges from the harness) so that an unsynchronised access next to a "
         "switch point is reported deterministically; (b) stress: up to 64 free-running threads released from a barrier under "
         "ThreadSanitizer, formats cycling through every data source, file and stdout outputs, with and without a filter chain of differently named filters; (c) the same call sequences single-threaded in the "
-        "non-thread-safe build. non-trivial (a) = schedule whose executed trace interleaves two calls inside the library; "
+        "non-thread-safe build; (d) free-running threads writing 4..8 KiB records to stdout/stderr connected to an ordinary pipe whose reader starts late and reads slowly. non-trivial (a) = schedule whose executed trace interleaves two calls inside the library; "
         "for 2x1 shapes also every directed pair 'thread 0 preempted at one of its close() calls x thread 1 handing back at a point where it owns a descriptor' (one shape with a record too large to send in thread 0); "
         "the process-wide state (umask set to 0002/0000, descriptor table, signal dispositions and mask, cwd, environment) is compared before the threads start and after all calls returned; "
         "distinct by the executed lock/unlock interleaving string")
@@ -323,6 +323,42 @@ def stress(ctx, builds, rounds, nthreads):
     return None
 
 
+def slow_reader(ctx, builds, okind, nthreads, ncalls, size, delay_ms):
+    """free-running threads, output stdout/stderr into an ordinary pipe whose reader starts late and reads slowly, records larger than
+    PIPE_BUF: every line that arrives is one whole record of one call (the writers have to wait for room; they must not interleave)"""
+    d = drv.Driver(ctx.run, builds["ts-plain"], timeout_ms=120000)
+    out = d.out
+    try:
+        fd = 1 if okind == "stdout" else 2
+        ini = gen.render_ini([(b"output", okind.encode()), (b"message_format", b"%{filename}|%{cmdline}"),
+                              (b"datasource_message_max_length", b"65535"), (b"log_message_max_length", b"65535")])
+        capture = out + "/slow-capture"
+        ops = [drv.op("S", fd, "lazypipe", delay_ms, capture), drv.op("C", ini), drv.op("Z", nthreads, 1)]
+        want = set()
+        for t in range(nthreads):
+            for k in range(ncalls):
+                arg = (b"%d-%d-" % (t, k)) * (size // 6)
+                ops.append(drv.op_exec("e", b"/bin/w%dc%d" % (t, k), [b"w", arg], [], ret=-1, err=2, tno=t, callno=k))
+                want.add(b"/bin/w%dc%d|w " % (t, k) + arg)
+        ops.append(drv.op("y"))
+        res = d.scenario(ops)
+        case = {"slow_reader": okind, "threads": nthreads, "calls_each": ncalls, "record_bytes": size, "reader_starts_after_ms": delay_ms}
+        ctx.count(("slow-reader", okind, nthreads, size), ["slow-reader:" + okind], sample=case)
+        if res.timedout or not res.of("y"):
+            return {"what": "calls writing to a slowly read %s pipe did not complete (%d threads x %d calls of %d bytes)" % (okind, nthreads, ncalls, size),
+                    "observed": {"result": res.describe()}, "case": case}
+        got = open(capture, "rb").read().split(b"\n")
+        lines = [l for l in got if l]
+        bad = [l for l in lines if l not in want]
+        if bad or len(lines) != len(want) or len(set(lines)) != len(lines):
+            return {"what": "records of concurrent calls written to a slowly read %s pipe are not one whole line per call (%d threads x %d calls of %d bytes): %d lines, %d of them not a record"
+                            % (okind, nthreads, ncalls, size, len(lines), len(bad)),
+                    "observed": {"odd_line_head": bad[0][:120] if bad else None, "odd_line_tail": bad[0][-60:] if bad else None}, "case": case}
+    finally:
+        d.close()
+    return None
+
+
 def main():
     ctx = Ctx(PID, "exploration", RULE)
     bs = ctx.run.build_many(["ts-plain", "ts-tsan", "nts-plain"])
@@ -405,6 +441,12 @@ def main():
     v = stress(ctx, builds, 4 if ctx.quick else 32, 16 if ctx.quick else 64)
     if v and len(ctx.violations) < 5:
         ctx.violation({"stress": True}, v["observed"], None, v["what"])
+    # (d) stdout / stderr into a slowly read pipe, records above PIPE_BUF
+    for okind, nt, nc, size in ([("stderr", 6, 4, 6000), ("stdout", 6, 4, 7000)] if ctx.quick else
+                                [("stderr", 6, 4, 6000), ("stdout", 6, 4, 7000), ("stderr", 16, 6, 5000), ("stderr", 4, 10, 8000), ("stdout", 16, 6, 4200)]):
+        v = slow_reader(ctx, builds, okind, nt, nc, size, 400)
+        if v and len(ctx.violations) < 5:
+            ctx.violation(v["case"], v["observed"], None, v["what"])
     # (c) non-thread-safe build, single-threaded sequence
     d = drv.Driver(ctx.run, builds["nts-plain"])
     out = d.out
